@@ -7,7 +7,7 @@ from harness.common import partition_class, arity, is_equal_size, sym_box, all_n
 
 PROPERTY = "C02"
 ASSUMPTIONS = [
-    "multi-step mode: every order of up to 3 (thorough 4) deepen()/make_children(leaf) operations, after which EVERY internal cell's stored child list is re-checked (a later call must not change an earlier cell's children) and the leaves' total length equals the domain's",
+    "multi-step mode: every order of up to 3 (thorough 4) deepen()/make_children(leaf) operations (d = 2 also: every sequence of 5 single-leaf splits, one candidate leaf per split cell; thorough: 6 splits), after which EVERY internal cell's stored child list is re-checked (a later call must not change an earlier cell's children) and the leaves' total length equals the domain's",
     "one-step argument: make_children depends only on the parent's domain/depth/index, so an arbitrary symbolic box stands for an arbitrary cell; 'leaves of any tree tile the domain' follows by induction on expansions (paper argument, DESIGN §C02) together with C03",
     "random split points are arbitrary values of the closed interval [lo, hi] of the cell (end points included)",
     "bit-identity of shared faces is decided structurally: both neighbours hold the same term (same IEEE operations on the same inputs)",
@@ -43,6 +43,12 @@ def configs(tier, seed):
             if arity(kind, d) >= 4:
                 m = 2
             out.append({"name": "multi-%s-d%d-m%d" % (kind, d, m), "mode": "multi", "kind": kind, "d": d, "m": m, "cost": 3 ** m})
+    # d = 2, five successive splits of single leaves (no deepen): reaches two cells of one depth with different
+    # shapes that are split along the same dimension - the situation in which anything remembered per depth,
+    # per dimension or per partition object from an earlier split is stale (seed S-C02-5)
+    for kind in ("B", "K2", "K3") + (("RB", "RK2", "DB") if tier != "quick" else ()):
+        out.append({"name": "multi-%s-d2-splits" % kind, "mode": "multi", "kind": kind, "d": 2, "m": (3 if kind == "DB" else 5 if tier == "quick" else 6), "splits_only": True,
+                    "end_leaves": True, "cost": 4000})
     out.append({"name": "twin-B", "kind": "B", "d": 1, "level": 0, "which": 0, "twin": True, "expect_fail": "twin"})
     out.append({"name": "twin-RK3", "kind": "RK3", "d": 2, "level": 0, "which": 0, "twin": True, "expect_fail": "twin"})
     return out
@@ -158,7 +164,16 @@ def run_multi(ctx, cfg):
     trace = []
     for step in range(m):
         lv = leaves(part)
-        op = ctx.choose(1 + len(lv), "op")
+        if cfg.get("end_leaves") and len(lv) > 2:
+            # one candidate per split cell (its first child that is still a leaf) - siblings are congruent
+            seen, cand = set(), []
+            for L in lv:
+                par = L.get_parent()
+                if id(par) not in seen:
+                    seen.add(id(par))
+                    cand.append(L)
+            lv = cand
+        op = ctx.choose(1 + len(lv), "op", allowed=range(1, 1 + len(lv)) if cfg.get("splits_only") else None)
         if op == 0:
             trace.append("deepen")
             ctx.call("deepen", part.deepen)
